@@ -110,12 +110,17 @@ Record fixes := mkFx {
   fx_up_nothrow : bool;   (* up_extension: a read_done() that still cannot proceed is not an internal_error *)
   fx_pex_false : bool;    (* send_pex_message: returns false when it wrote nothing *)
   fx_drain : bool;        (* event_write: after up_extension processed the waiting message, parse what is buffered behind it *)
-  fx_port : bool          (* parse_handshake: a 'p' outside 1..65535 is ignored instead of truncated to 16 bits *)
+  fx_port : bool;         (* parse_handshake: a 'p' outside 1..65535 is ignored instead of truncated to 16 bits *)
+  (* the ORDER SocketAddressCompact_less puts on the 6-byte entries is not constrained by the property: it
+     is a policy, probed on the compiled code at run time (harness c20 --probe-order). false: the raw
+     network-order integers as this little-endian host reads them (the code as it is); true: numeric. *)
+  fx_ord_addr : bool;
+  fx_ord_port : bool
 }.
 (* /repo has all four since 1b429d0 0a72c3c c72865a 6e820e7 *)
-Definition current_fixes := mkFx true true true true.
-Definition no_fixes := mkFx false false false false.
-Definition all_fixes := mkFx true true true true.
+Definition current_fixes := mkFx true true true true false false.
+Definition no_fixes := mkFx false false false false false false.
+Definition all_fixes := mkFx true true true true false false.
 
 Record mask := mkMask { k_do : bool; k_en : bool; k_dis : bool }.
 Definition mask0 := mkMask false false false.
@@ -434,27 +439,33 @@ Definition write_event (fx : fixes) (meta : list N) (ini del : pexmsg) (c : conn
 
 (* ---- DownloadMain::do_peer_exchange *)
 Definition swap16 (p : N) : N := (p mod 256) * 256 + p / 256.
-Definition entry_less (a b : entry) : bool :=
-  (fst a <? fst b) || ((fst a =? fst b) && (swap16 (snd a) <? swap16 (snd b))).
+(* comparison keys of an entry under the order policy. Peer k has address 127.0.0.(2+k) (session peers,
+   k < 6) or 10.0.(k mod 256).(k / 256) (unit-level fake peers): read as a raw little-endian integer the
+   address is monotone in k; numerically (ntohl) it is monotone in swap16 k. *)
+Definition key_addr (fx : fixes) (i : N) : N := if fx_ord_addr fx then swap16 i else i.
+Definition key_port (fx : fixes) (p : N) : N := if fx_ord_port fx then p else swap16 p.
+Definition entry_less (fx : fixes) (a b : entry) : bool :=
+  (key_addr fx (fst a) <? key_addr fx (fst b)) ||
+  ((key_addr fx (fst a) =? key_addr fx (fst b)) && (key_port fx (snd a) <? key_port fx (snd b))).
 
-Fixpoint insert_sorted (x : entry) (l : list entry) : list entry :=
+Fixpoint insert_sorted (fx : fixes) (x : entry) (l : list entry) : list entry :=
   match l with
   | [] => [x]
-  | y :: r => if entry_less y x then y :: insert_sorted x r else x :: l
+  | y :: r => if entry_less fx y x then y :: insert_sorted fx x r else x :: l
   end.
-Definition sort_entries (l : list entry) : list entry := fold_right insert_sorted [] l.
+Definition sort_entries (fx : fixes) (l : list entry) : list entry := fold_right (insert_sorted fx) [] l.
 
 (* std::set_difference on sorted ranges *)
-Fixpoint set_diff (a : list entry) : list entry -> list entry :=
+Fixpoint set_diff (fx : fixes) (a : list entry) : list entry -> list entry :=
   fix inner (b : list entry) : list entry :=
     match a with
     | [] => []
     | x :: a' =>
       match b with
       | [] => a
-      | y :: b' => if entry_less x y then x :: set_diff a' b
-                   else if entry_less y x then inner b'
-                   else set_diff a' b'
+      | y :: b' => if entry_less fx x y then x :: set_diff fx a' b
+                   else if entry_less fx y x then inner b'
+                   else set_diff fx a' b'
       end
     end.
 
@@ -501,7 +512,7 @@ Definition current_entries (l : list conn) : list entry :=
 
 Inductive dpe_result := DpeOk (d : dstate) | DpeInternalError.
 
-Definition do_peer_exchange (d : dstate) : dpe_result :=
+Definition do_peer_exchange (fx : fixes) (d : dstate) : dpe_result :=
   let n := N.of_nat (length (d_conns d)) in
   let '(act, tg) :=
     if negb (d_pex_active d) && (n <? d_minp d / 2) then
@@ -509,9 +520,9 @@ Definition do_peer_exchange (d : dstate) : dpe_result :=
     else if d_pex_active d && (d_minp d <=? n) then (false, TDisable)
     else (d_pex_active d, TNone) in
   let '(conns', sp') := pex_loop tg (d_size_pex d) (d_conns d) in
-  let current := sort_entries (current_entries (d_conns d)) in
-  let added := set_diff current (d_list d) in
-  let removed := set_diff (d_list d) current in
+  let current := sort_entries fx (current_entries (d_conns d)) in
+  let added := set_diff fx current (d_list d) in
+  let removed := set_diff fx (d_list d) current in
   let ncur := N.of_nat (length current) in
   let cap := Params.c20_max_pex_list in
   if (cap <? ncur) && (N.of_nat (length added) <? ncur - cap) then DpeInternalError
@@ -519,7 +530,7 @@ Definition do_peer_exchange (d : dstate) : dpe_result :=
     let '(added', list') :=
       if cap <? ncur then
         let added' := firstn (length added - N.to_nat (ncur - cap)) added in
-        (added', sort_entries (set_diff (d_list d) removed ++ added'))
+        (added', sort_entries fx (set_diff fx (d_list d) removed ++ added'))
       else (added, current) in
     (* a355167: if (!added.empty() || !removed.empty()) regenerate both buffers *)
     let '(ini, del) :=
@@ -622,7 +633,7 @@ Definition tick (fx : fixes) (d0 : dstate) : step_result :=
   match settle_all fx d00 ids [] with
   | SOk d o1 =>
     let r :=
-      if d_pexen d then do_peer_exchange d
+      if d_pexen d then do_peer_exchange fx d
       else if d_pex_active d then
         let '(l, sp) := disable_all (d_size_pex d) (d_conns d) in
         DpeOk (mkD (d_private d) (d_meta d) (d_minp d) false sp l (d_list d) (d_initial d) (d_delta d) (d_used d) (d_pexen d))
